@@ -86,6 +86,7 @@ func cmdVerify(args []string) {
 	}
 	dischargeAll(all, cfg)
 	bad := 0
+	ndump := 0
 	for _, o := range all {
 		ok := o.Status == "unsat"
 		if o.Kind == "cover" {
@@ -101,7 +102,16 @@ func cmdVerify(args []string) {
 			}
 		}
 		if *dump != "" && strings.Contains(o.Name, *dump) {
-			fmt.Println(o.query(true))
+			if strings.HasPrefix(*dump, "@") || os.Getenv("GOVC_DUMPDIR") != "" {
+				dir := os.Getenv("GOVC_DUMPDIR")
+				os.MkdirAll(dir, 0o755)
+				ndump++
+				fn := fmt.Sprintf("%s/d%02d_%s.smt2", dir, ndump, o.Status)
+				os.WriteFile(fn, []byte(o.query(true)), 0o644)
+				fmt.Println("dumped", o.Name, "->", fn)
+			} else {
+				fmt.Println(o.query(true))
+			}
 		}
 	}
 	for _, c := range ctxs {
